@@ -311,12 +311,18 @@ def finish(agg, tier):
     agg.floor('removed:var_type-removed', 100 if q else 1200)
     agg.floor('removed:type-args-made-inferable', 40 if q else 500)
     agg.floor('javac-erased-compared', 40 if q else 500)
+    agg.floor('inference-mode-runs', 250 if q else 3000)
+    agg.floor('inference-mode:annotations-recovered', 8000 if q else 100000)
     return agg.finish(
         rule='judged = TypeErasure.transform() runs of the driver (1-3 successive erasures per program, 4 languages, '
              'max_combinations in {1, 10, default}) whose before/after value snapshots were diffed path-wise against '
-             'the whitelist, plus Java erased translations compared with javac against the translation before that '
+             'the whitelist and whose result was re-checked by the reference checker in inference mode (omitted '
+             'annotations re-inferred; findings compared with those before the erasure), plus Java erased translations '
+             'compared with javac against the translation before that '
              'erasure; distinct non-trivial = erasures that removed something / erased texts that differ',
         assumptions=['FunctionCall.type_parameters (analysis cache) is not part of the program value',
-                     'for Kotlin/Groovy/Scala no compiler is installed: "still typable" is decided only through the '
-                     'recorded inferred types; Java translations print inferred types, so javac exercises the '
-                     'diamond (constructor type-argument) part of the erasure'])
+                     'for Kotlin/Groovy/Scala no compiler is installed: "still typable" is decided by the reference '
+                     'checker with a model of compiler inference (expected type, invariant argument positions, lower '
+                     'bounds, dependent bounds as the tool documents them); what the model cannot decide is unjudged and '
+                     'counted (events inference-mode:INFER:*); Java translations print inferred types, so javac exercises '
+                     'the diamond (constructor type-argument) part of the erasure'])
